@@ -19,6 +19,24 @@ Check (C11_every_call_partial :
   | (PErr _, _) => True
   end).
 
+Check (C11_nesting_order_partial :
+  forall ro alpha fast std_parse k inp d,
+  datum_from_trait ro alpha fast std_parse k inp = POk d -> tight (dinfo d)).
+
+Check (C11_children_inside_parent :
+  forall lo hi l i, seqb lo hi l -> In i l ->
+  pos_le lo (root_start i) /\ pos_le (root_start i) (root_end i) /\ pos_le (root_end i) hi).
+
+Check (C11_siblings_in_order :
+  forall lo hi l1 x y l2, seqb lo hi (l1 ++ x :: y :: l2) -> pos_le (root_end x) (root_start y)).
+
+Check (C11_nesting_every_call_partial :
+  forall W ro alpha fast std_parse fuel s, inv W (rd s) ->
+  match next_datum ro alpha fast std_parse fuel s with
+  | (POk (Some d), _) => tight (dinfo d)
+  | _ => True
+  end).
+
 Check (C11_position_monotone :
   forall ro alpha fast std_parse fuel b r,
   pos_le (rpos r) (rpos (snd (parse_token ro alpha fast std_parse fuel b r)))).
